@@ -10,6 +10,39 @@ use mqtt_protocol_core::mqtt::packet::{
 use mqtt_protocol_core::mqtt::packet::prelude::PropertyValueAccess;
 use mqtt_protocol_core::mqtt::result_code::*;
 
+/// Subscription Options through the public setter API (`SubOpts::new().set_qos(..).set_nl(..)...`), the four setters called in
+/// one of the 24 orders (chosen by the option byte and the filter length, so every order meets every value combination);
+/// a byte the setters cannot express (reserved bits, QoS 3, Retain Handling 3) goes through `from_u8`, which must refuse it.
+/// The result must equal what `from_u8` makes of the same byte.
+fn sub_opts_via_setters(o: u8, salt: usize) -> Result<SubOpts, mqtt::result_code::MqttError> {
+    let direct = SubOpts::from_u8(o);
+    let (q, nl, rap, rh) = (o & 3, o & 4 != 0, o & 8 != 0, (o >> 4) & 3);
+    if o & 0xC0 != 0 || q == 3 || rh == 3 {
+        return direct;
+    }
+    let qos = Qos::try_from(q).map_err(|_| mqtt::result_code::MqttError::MalformedPacket)?;
+    let rhv = mqtt::packet::RetainHandling::try_from(rh).map_err(|_| mqtt::result_code::MqttError::MalformedPacket)?;
+    // the k-th permutation of the four setters
+    let mut idx: Vec<u8> = vec![0, 1, 2, 3];
+    let mut k = (o as usize).wrapping_mul(7).wrapping_add(salt) % 24;
+    let mut order = Vec::new();
+    for n in (1..=4).rev() {
+        order.push(idx.remove(k % n));
+        k /= n;
+    }
+    let mut so = SubOpts::new();
+    for s in order {
+        so = match s {
+            0 => so.set_qos(qos),
+            1 => so.set_nl(nl),
+            2 => so.set_rap(rap),
+            _ => so.set_rh(rhv),
+        };
+    }
+    // hand back the setter-built value: it is what an application using the documented builder chain would send
+    direct.map(|_| so)
+}
+
 pub trait Pid: IsPacketId + mqtt::packet::IntoPacketId<Self> + Send + Sync + 'static {
     const W: usize;
     fn from_u32(x: u32) -> Option<Self>;
@@ -271,7 +304,7 @@ pub fn to_lib<P: Pid>(ap: &AP) -> Result<GenericPacket<P>, String> {
             let id = need_pid::<P>(*pid)?;
             let mut es = Vec::new();
             for (t, o) in entries {
-                let so = SubOpts::from_u8(*o).map_err(|x| e("subopts", x))?;
+                let so = sub_opts_via_setters(*o, t.len()).map_err(|x| e("subopts", x))?;
                 es.push(SubEntry::new(t.as_str(), so).map_err(|x| e("subentry", x))?);
             }
             match v {
